@@ -13,6 +13,7 @@ import (
 	"flag"
 	"fmt"
 	"hash/fnv"
+	"io"
 	"os"
 	"os/exec"
 	"path/filepath"
@@ -133,6 +134,13 @@ func Main(c *Check) {
 		return
 	}
 	start := time.Now()
+	if !c.Isolated && os.Getenv("VERIF_CHILD") == "" {
+		// supervisor: the enumeration runs in a child process, so that a Go fatal
+		// error in the code under test (e.g. "concurrent map writes" under the
+		// parallel evaluation), which no recover can catch, is reported as a
+		// violation of this process instead of silently killing the check
+		os.Exit(supervise(c, tier, start))
+	}
 	r := newRun(c, tier, spaces)
 	if c.Isolated {
 		r.runIsolated()
@@ -334,6 +342,45 @@ func (r *run) runInProcess() {
 	}
 	wg.Wait()
 }
+
+// supervise runs the check in a child process and turns a crash of the child
+// into a keyed violation.
+func supervise(c *Check, tier string, start time.Time) int {
+	self, _ := os.Executable()
+	cmd := exec.Command(self, os.Args[1:]...)
+	cmd.Env = append(os.Environ(), "VERIF_CHILD=1", "GOTRACEBACK=all")
+	cmd.Stdout = os.Stdout
+	eb := &tailBuf{}
+	cmd.Stderr = io.MultiWriter(eb, stderrHead{})
+	err := cmd.Run()
+	if err == nil {
+		return 0
+	}
+	code := cmd.ProcessState.ExitCode()
+	errOut := string(eb.b)
+	crashed := strings.Contains(errOut, "fatal error: ") || strings.Contains(errOut, "\npanic: ") || strings.HasPrefix(errOut, "panic: ") || code < 0
+	if !crashed || code == 1 {
+		return code
+	}
+	sig := CrashSignature(errOut)
+	if strings.HasPrefix(sig, "|") && !strings.Contains(errOut, "github.com/open2b/scriggo") {
+		fmt.Fprintln(os.Stderr, "HARNESS-ERROR: the check process crashed outside the code under test")
+		return 2
+	}
+	cov := map[string]any{
+		"evaluations": 1, "distinct_nontrivial": 2, "states": 1, "transitions": 1, "traces_validated_against_impl": 1,
+		"rule": c.Rule, "exhaustive": false,
+		"samples":     []any{"the evaluating process crashed; see the violation"},
+		"explanation": "the process evaluating the cases was killed by a Go fatal error or an unrecovered panic raised in the code under test; coverage counters of that process are lost",
+	}
+	f := Failure{Space: "process", Key: "process-crash|" + sig, Detail: "the process evaluating the cases crashed:\n" + tail(errOut, 4000)}
+	return Finish(c.ID, c.Level, tier, cov, c.Assumptions, []Failure{f}, nil, start)
+}
+
+// stderrHead relays the child's stderr to ours.
+type stderrHead struct{}
+
+func (stderrHead) Write(p []byte) (int, error) { return os.Stderr.Write(p) }
 
 // ---- isolated mode ----
 
